@@ -328,6 +328,7 @@ class Shapes(SubCheck):
 
 class ShapesMag(Shapes):
     """a reduced parameter set at magnitudes 1e-5 and 1e5 (every transform): size-dependent epsilons"""
+    crosstalk_k = (8, 16)      # expensive cases: the alphabet of after:X is kept small, and fixed
     name = "magnitudes"
 
     def __init__(self, svg, tier):
